@@ -66,6 +66,8 @@ func (j *textWriter) Bytes() []byte {
 // Clear implements writer.
 func (j *textWriter) Clear() {
 	j.buf.Reset()
+	// An abandoned document may have left the writer inside a structure.
+	j.indent = 0
 }
 
 // Integer implements writer.
